@@ -99,7 +99,7 @@ def parse_moves(line):
             k, v = t.split('=')
             hdr[k] = v
         elif ':' in t:
-            f = t.split(':')
+            f = (t.split(':') + ['?'] * 5)[:5]     # a malformed row (text forms broken by the tree under test) must show up as a difference
             rows.append({'uci': f[0], 'code': f[1], 'san': f[2], 'cqk': f[3], 'pp': f[4]})
         else:
             rows.append({'uci': t})
